@@ -212,6 +212,11 @@ func visitInstr(fr *frame, instr ssa.Instruction) continuation {
 		// no-op
 
 	case *ssa.UnOp:
+		if R != nil && instr.Op == token.MUL && !isLocalAlloc(instr.X) {
+			if p, ok := fr.get(instr.X).(*value); ok && p != nil {
+				raceMem(fr, instr.Type(), p, false)
+			}
+		}
 		fr.env[instr] = unop(instr, fr.get(instr.X))
 
 	case *ssa.BinOp:
@@ -271,6 +276,9 @@ func visitInstr(fr *frame, instr ssa.Instruction) continuation {
 		if addr == nil {
 			panic(targetRuntimeError{"invalid memory address or nil pointer dereference"})
 		}
+		if R != nil && !isLocalAlloc(instr.Addr) {
+			raceMem(fr, mustDeref(instr.Addr.Type()), addr, true)
+		}
 		store(mustDeref(instr.Addr.Type()), addr, fr.get(instr.Val))
 
 	case *ssa.If:
@@ -302,9 +310,10 @@ func visitInstr(fr *frame, instr ssa.Instruction) continuation {
 		fn, args := prepareCall(fr, &instr.Call)
 		i := fr.i
 		pos := instr.Pos()
-		S.spawn(fmt.Sprint(instr.Call.Value.Name()), func() {
+		child := S.spawn(fmt.Sprint(instr.Call.Value.Name()), func() {
 			call(i, nil, pos, fn, args)
 		})
+		raceFork(child.id)
 		S.switchPoint("go")
 
 	case *ssa.MakeChan:
@@ -346,9 +355,19 @@ func visitInstr(fr *frame, instr ssa.Instruction) continuation {
 		fr.env[instr] = makeMap(instr.Type().Underlying().(*types.Map).Key(), 0)
 
 	case *ssa.Range:
+		if R != nil {
+			if m, ok := fr.get(instr.X).(*omap); ok {
+				raceMap(fr, m, false)
+			}
+		}
 		fr.env[instr] = rangeIter(fr.get(instr.X), instr.X.Type())
 
 	case *ssa.Next:
+		if R != nil {
+			if it, ok := fr.get(instr.Iter).(*omapIter); ok {
+				raceMap(fr, it.m, false)
+			}
+		}
 		fr.env[instr] = fr.get(instr.Iter).(iter).next()
 
 	case *ssa.FieldAddr:
@@ -403,10 +422,16 @@ func visitInstr(fr *frame, instr ssa.Instruction) continuation {
 		}
 
 	case *ssa.Lookup:
+		if R != nil {
+			if m, ok := fr.get(instr.X).(*omap); ok {
+				raceMap(fr, m, false)
+			}
+		}
 		fr.env[instr] = lookup(instr, fr.get(instr.X), fr.get(instr.Index))
 
 	case *ssa.MapUpdate:
 		m := fr.get(instr.Map).(*omap)
+		raceMap(fr, m, true)
 		m.insert(fr.get(instr.Key), fr.get(instr.Value))
 
 	case *ssa.TypeAssert:
